@@ -27,6 +27,7 @@ import (
 	"github.com/dominant-strategies/go-quai/core/state"
 	"github.com/dominant-strategies/go-quai/core/types"
 	"github.com/dominant-strategies/go-quai/core/vm"
+	"github.com/dominant-strategies/go-quai/crypto"
 	"github.com/dominant-strategies/go-quai/log"
 	"github.com/dominant-strategies/go-quai/params"
 
@@ -41,7 +42,10 @@ type EtxRec struct {
 }
 
 type BTx struct {
-	Kind  string `json:"kind"` // xfer (plain value transfer), call (call of a contract), inbound (inbound external transaction)
+	Kind  string `json:"kind"` // xfer (plain value transfer), call (call of a contract), inbound (inbound external transaction),
+	// create (contract-creation transaction, To == nil), inbound-create (inbound external transaction addressed to the zone's zero address)
+	Init    []Instr `json:"init,omitempty"`     // create kinds: the init code (the constructor is what sends)
+	NewAddr string  `json:"new_addr,omitempty"` // create kinds: the address Create gives the contract, recomputed by the harness (crypto.CreateAddress / vm.GrindContract)
 	From  string `json:"from"` // EOA; for inbound: the foreign sender named by the external transaction
 	To    string `json:"to"`
 	Value string `json:"value"`
@@ -135,6 +139,7 @@ type bTxRun struct {
 	hash     string
 	traced   bool
 	reject   string
+	newAddr  string
 }
 
 type bRun struct {
@@ -200,16 +205,37 @@ func runBlock(c *BCase, mode string, logger *log.Logger) (out bRun) {
 	out.block = make([]*types.Transaction, 0)
 	for i := range c.Txs {
 		t := &c.Txs[i]
-		to := common.BytesToAddress(addrBytes(t.To), loc)
+		creating := t.Kind == "create" || t.Kind == "inbound-create"
+		var to common.Address
+		var toP *common.Address
+		var data []byte
+		if creating {
+			data, _ = compile(t.Init)
+			if t.Kind == "inbound-create" {
+				to = common.ZeroAddress(loc)
+				toP = &to
+			}
+		} else {
+			to = common.BytesToAddress(addrBytes(t.To), loc)
+			toP = &to
+		}
 		from := common.BytesToAddress(addrBytes(t.From), loc)
 		var tx *types.Transaction
 		var msg types.Message
 		var payer common.InternalAddress
-		if t.Kind == "inbound" {
+		if t.Kind == "inbound" || t.Kind == "inbound-create" {
 			origin := common.BytesToHash(append([]byte{0xe7, byte(i)}, addrBytes(t.From)...))
-			tx = types.NewTx(&types.ExternalTx{To: &to, Sender: from, Value: bi(t.Value), Gas: t.Gas, OriginatingTxHash: origin, ETXIndex: uint16(i), EtxType: types.DefaultType})
+			tx = types.NewTx(&types.ExternalTx{To: toP, Sender: from, Value: bi(t.Value), Gas: t.Gas, Data: data, OriginatingTxHash: origin, ETXIndex: uint16(i), EtxType: types.DefaultType})
 			msg, err = tx.AsMessageWithSender(signer, blockCtx.BaseFee, nil)
 			payer = common.ZeroInternal(loc)
+		} else if creating {
+			payer, err = from.InternalAndQuaiAddress()
+			if err != nil {
+				panic("sender not an in-scope Quai address: " + t.From)
+			}
+			sig := new(big.Int).SetBytes(addrBytes(t.From))
+			tx = types.NewTx(&types.QuaiTx{ChainID: big.NewInt(1), Nonce: statedb.GetNonce(payer), GasPrice: blockGasPrice, Gas: t.Gas, To: nil, Value: bi(t.Value), Data: data, V: big.NewInt(1), R: sig, S: sig})
+			msg, err = tx.AsMessageWithSender(signer, blockCtx.BaseFee, &payer)
 		} else {
 			payer, err = from.InternalAndQuaiAddress()
 			if err != nil {
@@ -229,8 +255,23 @@ func runBlock(c *BCase, mode string, logger *log.Logger) (out bRun) {
 		statedb.Prepare(tx.Hash(), i)
 		tr.ends = nil
 		run := bTxRun{hash: hex.EncodeToString(tx.Hash().Bytes()), cacheIn: len(evm.ETXCache)}
+		if creating {
+			// where EVM.Create will put the contract (core/vm/evm.go:Create), recomputed here from the creator's nonce
+			creator := msg.From()
+			if ci, err := creator.InternalAndQuaiAddress(); err == nil {
+				nonce := statedb.GetNonce(ci)
+				na := crypto.CreateAddress(creator, nonce, data, loc)
+				if _, err := na.InternalAndQuaiAddress(); err != nil {
+					gasCost := int64(params.Sha3Gas) + int64((len(data)+31)/32)*int64(params.Sha3WordGas)
+					if a, _, err := vm.GrindContract(creator, nonce, grindProbeGas, gasCost, crypto.Keccak256Hash(data), blockCtx.BlockNumber, loc); err == nil {
+						na = a
+					}
+				}
+				run.newAddr = hex.EncodeToString(na.Bytes())
+			}
+		}
 		var before *big.Int
-		if t.Kind != "inbound" {
+		if t.Kind != "inbound" && t.Kind != "inbound-create" {
 			before = new(big.Int).Set(statedb.GetBalance(payer))
 		}
 		switch mode {
@@ -315,6 +356,15 @@ func runBlockCase(c *BCase, logger *log.Logger) {
 		s, f, m := &shared.txs[i], &fresh.txs[i], &msg.txs[i]
 		t.Hash, t.Status, t.Emit, t.CacheIn, t.AtReturn, t.Debit, t.GasUsed = s.hash, s.status, s.emit, s.cacheIn, s.atReturn, s.debit.String(), s.gasUsed
 		t.EmitSrc, t.Reject = "tracer", s.reject+f.reject+m.reject
+		if t.Kind == "create" || t.Kind == "inbound-create" {
+			// the constructor's own sends are sent by the new contract: its address is known only now (creator's nonce, grinding)
+			t.NewAddr = s.newAddr
+			for j := range t.Want {
+				if t.Want[j].Sender == "" {
+					t.Want[j].Sender = s.newAddr
+				}
+			}
+		}
 		if !s.traced && t.Kind == "xfer" {
 			// EVM.Call's CreateETX branch does not call the tracer: the cache cannot be observed before the hand-over
 			t.EmitSrc, t.Emit = "construction", []EtxObs{}
@@ -634,6 +684,34 @@ func (s *bscen) callTx(from int, e *emitter, ok bool) {
 	}
 	s.c.Txs = append(s.c.Txs, t)
 }
+// a constructor under construction: its own sends are made by the contract being created (sender "" until the run
+// has recomputed the address)
+func (s *bscen) newCtor() *emitter { return &emitter{s: s, self: "", p: new(prog)} }
+
+// createTx: a contract-creation transaction whose init code is e's program ended by end; the endowment pays the sends
+func (s *bscen) createTx(from int, e *emitter, end string, inbound bool) {
+	ok := true
+	switch end {
+	case "stop":
+		e.p.op("stop")
+	case "return":
+		e.p.ret(uint64(7)) // seven bytes of (zero) code are deposited
+	case "revert":
+		e.p.revert()
+		ok = false
+	case "invalid":
+		e.p.op("invalid")
+		ok = false
+	}
+	t := BTx{Kind: "create", From: s.eoas[from], To: "", Value: "100000000000000000000", Gas: 4000000, WantOK: ok, Want: []EtxObs{}, Init: e.p.ins}
+	if inbound {
+		t.Kind, t.From = "inbound-create", s.fQuai[len(s.fQuai)-1]
+	}
+	if ok {
+		t.Want = indexed(e.want)
+	}
+	s.c.Txs = append(s.c.Txs, t)
+}
 func (s *bscen) inbound(e *emitter, ok bool, value int64) {
 	t := BTx{Kind: "inbound", From: s.fQuai[len(s.fQuai)-1], To: e.self, Value: big.NewInt(value).String(), Gas: 4000000, WantOK: ok, Want: []EtxObs{}}
 	if ok {
@@ -650,6 +728,36 @@ func blockCorpus() []*BCase {
 			f(s)
 			out = append(out, s.c)
 		}
+		// contract-creation transactions whose constructor sends (every transaction kind hands its cache to the receipt)
+		add("creation transaction: the constructor sends one ETX out of its endowment", func(s *bscen) {
+			s.createTx(0, s.newCtor().etx(s.fQuai[0], 4321), "stop", false)
+			s.xfer(1, s.fQuai[1], 2222)
+		})
+		add("creation transaction between two sending transactions: constructor sends 2 ETXs and converts, then RETURNs code", func(s *bscen) {
+			s.xfer(1, s.fQuai[1], 1111)
+			s.createTx(0, s.newCtor().etx(s.fQuai[0], 11).convert(1).etx(s.fQuai[2], 12), "return", false)
+			a := s.newContract().etx(s.fQuai[0], 5).install("stop")
+			s.callTx(2, a, true)
+		})
+		add("creation transaction whose constructor sends and reverts / hits an invalid opcode: failed, nothing recorded", func(s *bscen) {
+			s.createTx(0, s.newCtor().etx(s.fQuai[0], 4321), "revert", false)
+			s.createTx(1, s.newCtor().etx(s.fQuai[0], 4322), "invalid", false)
+			s.xfer(2, s.fQuai[1], 2222)
+		})
+		add("creation transaction whose constructor sends through DELEGATECALL and CALL sub-frames, one of them reverting", func(s *bscen) {
+			ok := s.newContract().etx(s.fQuai[0], 21).install("stop")
+			bad := s.newContract().etx(s.fQuai[1], 22).install("revert")
+			s.createTx(0, s.newCtor().sub("delegatecall", ok, true).sub("call", bad, false).sub("call", ok, true).etx(s.fQuai[2], 23), "stop", false)
+			s.createTx(0, s.newCtor().etx(s.fQuai[2], 24), "stop", false)
+		})
+		add("inbound external transaction to the zero address creating a contract whose constructor sends", func(s *bscen) {
+			s.createTx(0, s.newCtor().etx(s.fQuai[0], 4321).etx(s.fQuai[1], 4322), "stop", true)
+			s.xfer(1, s.fQuai[1], 2222)
+		})
+		add("creation transaction that sends nothing, then one that does", func(s *bscen) {
+			s.createTx(0, s.newCtor(), "return", false)
+			s.createTx(1, s.newCtor().convert(2), "stop", false)
+		})
 		add("two plain transfers out of the chain by two senders", func(s *bscen) {
 			s.xfer(0, s.fQuai[0], 1111)
 			s.xfer(1, s.fQuai[1], 2222)
@@ -820,6 +928,20 @@ func genBlock(r *hlib.Rng) *BCase {
 			s.xfer(r.Intn(4), s.local, int64(1+r.Intn(1000)))
 		case x < 37:
 			s.xferShortGas(r.Intn(4), dest(), int64(1+r.Intn(1000)))
+		case x < 49:
+			e := s.newCtor()
+			for k, m := 0, r.Intn(4); k < m; k++ {
+				switch y := r.Intn(10); {
+				case y < 6:
+					e.etx(dest(), int64(1+r.Intn(100000)))
+				case y < 7:
+					e.convert(int64(1 + r.Intn(3)))
+				default:
+					child, ok := mk(1)
+					e.sub([]string{"call", "delegatecall", "callcode"}[r.Intn(3)], child, ok)
+				}
+			}
+			s.createTx(r.Intn(4), e, []string{"stop", "stop", "return", "return", "revert", "invalid"}[r.Intn(6)], r.Intn(5) == 0)
 		default:
 			var e *emitter
 			var ok bool
@@ -830,7 +952,7 @@ func genBlock(r *hlib.Rng) *BCase {
 				e, ok = mk(0)
 				pool, poolOK = append(pool, e), append(poolOK, ok)
 			}
-			if x < 50 {
+			if x < 60 {
 				s.inbound(e, ok, int64(r.Intn(2)*1000))
 			} else {
 				s.callTx(r.Intn(4), e, ok)
